@@ -298,11 +298,17 @@ def c19_executions(tier, seed):
         if outcome == 'admin':
             fl2 |= F['ADMIN']
             pay = bp7.enc([1, [[[True], [False], [False], [False]], 0, [1, '//x/y'], [5, 0]]])
-        octets = mk(dest=dest, rpt=rpt, ts=(777000 + k, k % 3), flags=fl2, pay=pay, crc=rnd.choice([0, 1, 2]),
-                    ext=[hop_count(2, 9, 1)] if k % 2 else [])
+        # every fourth subject comes from a source without a clock: creation time 0 and a Bundle Age block
+        clockless = (k % 4 == 0)
+        ext = [hop_count(2, 9, 1)] if k % 2 else []
+        if clockless:
+            ext = ext + [age(5, 1200 + k)]
+        octets = mk(dest=dest, rpt=rpt, ts=(0, k) if clockless else (777000 + k, k % 3), flags=fl2, pay=pay,
+                    crc=rnd.choice([0, 1, 2]), ext=ext)
         steps = [('recv', octets, {'note': outcome}), ('idle',), ('recv', octets, {'note': 'repeat'}), ('idle',)]
         traces.append(run({'rx_routes': rx, 'tx_routes': tx}, steps))
-        metas.append({'flags': sorted(n for (n, v) in F.items() if fl2 & v), 'report_to': rpt, 'outcome': outcome})
+        metas.append({'flags': sorted(n for (n, v) in F.items() if fl2 & v), 'report_to': rpt, 'outcome': outcome,
+                      'clockless_source': clockless})
     # the same through the real convergence layer adaptors (bp.cla) with CL services leaving / re-joining the bus:
     # a bundle whose CL service is away never leaves the node, so it is deleted, not forwarded
     txa = [('dtn://other/', 'dtn://other/', None, 'udpcl'), ('dtn://far/', 'dtn://far/', None, 'btpu'),
